@@ -262,6 +262,23 @@ def enrich(draw, s, floats=True, np_consts=False, p_nest=2, p_neutral=2, p_const
             i = d(st.integers(0, len(ch) - 1))
             j = d(st.integers(i + 1, len(ch)))
             ch[i:j] = [[s[0], ch[i:j]]]
+        if ch and d(st.integers(0, 5)) == 0:
+            # an operand of the *other* kind that collapses to this kind once its own
+            # constants are folded (1*(2 + x) under a sum, 1 + -1 + 2*x under a product):
+            # its constant then belongs to this node's single constant
+            i = d(st.integers(0, len(ch) - 1))
+            c = ["Const", "int", d(st.sampled_from((2, 3, -2, 5)))]
+            inner = [s[0], [c, ch[i]] if d(st.booleans()) else [ch[i], c]]
+            one, m1, zero = (["Const", "int", v] for v in (1, -1, 0))
+            if s[0] == "Sum":
+                wrap = d(st.sampled_from((["Product", [one, inner]],
+                                          ["Product", [m1, inner, m1]],
+                                          ["Product", [inner, one]])))
+            else:
+                wrap = d(st.sampled_from((["Sum", [one, m1, inner]],
+                                          ["Sum", [zero, inner]],
+                                          ["Sum", [inner, m1, one]])))
+            ch[i] = wrap
         return [s[0], ch]
     return rec(s)
 
